@@ -25,6 +25,27 @@ namespace occa {
 
     void liveAdd(int cls, long delta);
 
+    // Schedule points: a callback (none by default) called between the steps of
+    // the reference-counting protocol, so that a test can hold a thread there
+    // and replay a chosen interleaving.
+#define OCCA_VERIF_HAS_YIELD 1
+    enum yieldPoint {
+      // a wrapper has left the object's ring, the test for freeing it is not made yet
+      ptAfterRemoveMemoryRef     = 1,
+      // a modeMemory_t has left its buffer's ring, the test for freeing the buffer is not made yet
+      ptAfterRemoveModeMemoryRef = 2,
+      ptBeforeBytes              = 3,  // about to update modeDevice_t::bytesAllocated
+      ptAfterBytes               = 4,  // modeDevice_t::bytesAllocated updated
+      ptAfterRemoveMemoryPoolRef = 5,
+      ptAfterRemoveDeviceRef     = 6,
+      ptAfterRemoveKernelRef     = 7,
+      ptAfterRemoveStreamRef     = 8,
+      ptAfterRemoveStreamTagRef  = 9
+    };
+    typedef void (*yieldFn_t)(int point);
+    void setYield(yieldFn_t fn);
+    void yield(int point);
+
     // Member token for classes whose constructor has no body to add a line to
     template <int cls>
     class liveToken {
